@@ -1990,6 +1990,12 @@ func (v *VM) handleException() {
 				ctx := v.istack[len(v.istack)-1]
 				v.istack = v.istack[:len(v.istack)-1]
 				v.unloadContext(ctx)
+				// Whatever a dropped context has left on an evaluation stack of
+				// its own is not returned to anyone, release it. Contexts sharing
+				// the handler's stack keep their items there.
+				if ctx.sc.estack != ictx.sc.estack {
+					ctx.sc.estack.Clear()
+				}
 			}
 			v.estack = ictx.sc.estack
 			if ectx.State == eTry && ectx.HasCatch() {
